@@ -1,8 +1,8 @@
 (* Dispatch/DC18.v — entry points of the C18 models and specs for the correspondence check. *)
 From Coq Require Import String.
 From V Require Import Base.Prelude Base.Ints Base.Disp Model.Helper Model.Gcs Model.Network
-  Model.Siphash Model.Murmur Model.Bloom Model.CFilter.
-From V Require Spec.Siphash Spec.Murmur.
+  Model.Siphash Model.Murmur Model.Bloom Model.CFilter Model.CFilterMsg.
+From V Require Spec.Siphash Spec.Murmur Spec.Bip158 Spec.BloomCore.
 Open Scope string_scope.
 Open Scope Z_scope.
 
@@ -171,5 +171,130 @@ Definition dispatch (H : oracle) (fn : list Z) (args : list val) : val :=
     match args with
     | [VB prev; VL hs] =>
         match vals_bytes hs with Some l => VB (cfheader_chain (o_hash256 H) prev l) | None => bad_args end
+    | _ => bad_args end
+  (* ---- BIP158 transcription (Spec/Bip158.v): streaming writer / reader, gcs_match ---- *)
+  else if fn_is "bip158_spec" fn then
+    match args with
+    | [VB key; VL items] =>
+        match vals_bytes items with
+        | Some l => if Nat.eqb (length key) 16 then VB (Spec.Bip158.filter_bytes key l) else VErr
+        | None => bad_args end
+    | _ => bad_args end
+  else if fn_is "bip158_serialize" fn then
+    (* CompactSize N ++ the streamed Golomb-Rice deltas of an explicit value list *)
+    match args with
+    | [VL items] =>
+        match vals_ints items with
+        | Some l => VB (Spec.Bip158.compact_size (zlen l) ++
+                        Spec.Bip158.bw_flush (Spec.Bip158.gcs_compress l 0 Spec.Bip158.bw_empty))
+        | None => bad_args end
+    | _ => bad_args end
+  else if fn_is "bip158_decompress" fn then
+    (* the BIP's reader on the bytes after the count, on every input (a count that cannot be a loop counter
+       of the unary extracted nat is left to the model, which rejects it) *)
+    match args with
+    | [VB fb] =>
+        match read_varint fb with
+        | Ok (n, r) =>
+            if small n then
+              match Spec.Bip158.gcs_decompress r n with Some l => vil l | None => VErr end
+            else match decode_gcs fb with Ok _ => bad_args | Err => VErr end
+        | Err => VErr
+        end
+    | _ => bad_args end
+  else if fn_is "bip158_match" fn then
+    (* on every filter the model parses: gcs_match of the BIP for each query *)
+    match args with
+    | [VB key; VB fb; VL raws] =>
+        match vals_bytes raws with
+        | Some q =>
+            match decode_gcs fb, read_varint fb with
+            | Ok _, Ok (n, r) =>
+                if negb (small n) then bad_args
+                (* (the number of queries in front: a list of two failures alone would read as bad_args) *)
+                else if negb (Nat.eqb (length key) 16) then VL [VI (zlen q); VL (map (fun _ => VErr) q)]
+                else VL [VI (zlen q);
+                         VL (map (fun x => match Spec.Bip158.gcs_match key r x n with
+                                           | Some b => vbool b | None => VErr end) q)]
+            | _, _ => VErr
+            end
+        | None => bad_args end
+    | _ => bad_args end
+  (* ---- SipHash object API ---- *)
+  else if fn_is "siphash_hexdigest" fn then
+    match args with [VB key; VB msg] => vres_b (siphash_hexdigest key msg) | _ => bad_args end
+  else if fn_is "sip_object" fn then
+    (* SipHash_2_4(key, s0).update(c1)...: [hash(), digest()] *)
+    match args with
+    | [VB key; VB s0; VL chunks] =>
+        match vals_bytes chunks with
+        | Some cs => vres (fun st => let st' := fold_left sip_update cs st in
+                                     VL [VI (sip_hash st'); vres_b (sip_digest st')]) (sip_new key s0)
+        | None => bad_args end
+    | _ => bad_args end
+  (* ---- BIP157 messages ---- *)
+  else if fn_is "cfmsg_contains" fn then
+    (* CFilterMessage.parse(wire): [hash(), membership of each query] *)
+    match args with
+    | [VB wire; VL raws] =>
+        match vals_bytes raws with
+        | Some q =>
+            match cfmsg_hash (o_hash256 H) wire with
+            | Ok h => VL [VB h; VL (map (fun r => vres_bool (cfmsg_contains siphash wire r)) q)]
+            | Err => VErr
+            end
+        | None => bad_args end
+    | _ => bad_args end
+  else if fn_is "cfmsg_new_contains" fn then
+    (* CFilterMessage(0, block_hash, filter_bytes): the constructor decodes the filter *)
+    match args with
+    | [VB bh; VB fb; VL raws] =>
+        match vals_bytes raws with
+        | Some q =>
+            match cf_parse (cfmsg_key bh) fb with
+            | Ok cf => VL [VI (zlen q); VL (map (fun r => vres_bool (cf_contains siphash cf r)) q)]
+            | Err => VErr
+            end
+        | None => bad_args end
+    | _ => bad_args end
+  else if fn_is "cfheaders_last" fn then
+    match args with
+    | [VB wire] =>
+        (* the hash count of the wire becomes a (unary) loop counter: only small counts are run *)
+        match read_varint (skipn 65 wire) with
+        | Ok (n, _) => if small n then vres_b (cfheaders_last (o_hash256 H) wire) else bad_args
+        | Err => vres_b (cfheaders_last (o_hash256 H) wire)
+        end
+    | _ => bad_args end
+  (* ---- Bitcoin Core's CBloomFilter (Spec/BloomCore.v) ---- *)
+  else if fn_is "bloom_core_bytes" fn then
+    match args with
+    | [VI size; VI fc; VI tweak; VL items] =>
+        match vals_bytes items with
+        | Some l => if small fc && small size && (0 <? size) && (0 <=? fc) then
+                      VB (fold_left (Spec.BloomCore.core_insert fc tweak) l (repeatz 0 (Z.to_nat size)))
+                    else bad_args
+        | None => bad_args end
+    | _ => bad_args end
+  else if fn_is "bloom_core_wire" fn then
+    (* the model's filterload payload, decoded and queried as the receiving peer does *)
+    match args with
+    | [VI size; VI fc; VI tweak; VL items; VI flag; VL probes] =>
+        match vals_bytes items, vals_bytes probes with
+        | Some l, Some q =>
+            if small fc && small size then
+              match (b <- bloom_add_all (bloom_new size fc tweak) l ;; filterload b flag) with
+              | Ok payload =>
+                  match Spec.BloomCore.filterload_decode payload with
+                  | Some (v, nf, nt, fl) =>
+                      VL [VB payload; VB v; VI nf; VI nt; VI fl;
+                          VL (map (fun x => vbool (Spec.BloomCore.core_contains nf nt v x)) q);
+                          vbool (Spec.BloomCore.filterload_acceptable payload)]
+                  | None => VL [VB payload; VErr]
+                  end
+              | Err => VErr
+              end
+            else bad_args
+        | _, _ => bad_args end
     | _ => bad_args end
   else bad_args.
